@@ -1063,3 +1063,20 @@ pub fn functional_of(spec: &Spec, fmt: u8) -> Option<Spec> {
     s.opts.fmt = fmt;
     Some(s)
 }
+
+/// False where the model itself is not differentiable near the state, so that finite
+/// differences across the state say nothing about the analytic derivative:
+/// Peng-Robinson's alpha function (1 + kappa (1 - sqrt(T/Tc)))^2 enters the mixing
+/// rule through sqrt(a_i a_j) = |..|, which has a kink where the bracket vanishes.
+pub fn model_smooth_at(spec: &Spec, t: f64) -> bool {
+    if spec.kind != Kind::Pr {
+        return true;
+    }
+    spec.pure.iter().all(|p| {
+        let r = &p["model_record"];
+        let w = r["acentric_factor"].as_f64().unwrap_or(0.0);
+        let tc = r["tc"].as_f64().unwrap_or(1.0);
+        let kappa = 0.37464 + (1.54226 - 0.26992 * w) * w;
+        (1.0 + kappa * (1.0 - (t / tc).sqrt())).abs() > 0.05
+    })
+}
